@@ -21,11 +21,17 @@ IsBegin(i) == S[i].cmd[1] = "begin_release" /\ S[i].res = "true"
 TwoOwners == \E i, j \in 1..Len(S) : i < j /\ IsClaim(i) /\ IsClaim(j) /\ ~(\E k \in (i+1)..(j-1) : IsBegin(k))
 ClaimWhileActive == \E i \in 1..Len(S) : IsClaim(i) /\ S[i].pre \in {"active", "none"}
 BadCompletion == \E i \in 1..Len(S) : S[i].row = "released" /\ S[i].pre \notin {"releasing", "released"}
+\* a release in progress is respected: a claim of a row found 'releasing' needs the crash timeout (2 ticks in these histories)
+\* to have elapsed SINCE THAT RELEASE BEGAN -- however long the run had been active before
+LastBegin(i) == LET B == {j \in 1..(i-1) : IsBegin(j)} IN IF B = {} THEN 0 ELSE CHOOSE j \in B : \A k \in B : k <= j
+TicksBetween(j, i) == Cardinality({k \in (j+1)..(i-1) : S[k].cmd[1] = "tick"})
+EarlyTakeover == \E i \in 1..Len(S) : IsClaim(i) /\ S[i].pre = "releasing" /\ LastBegin(i) # 0 /\ TicksBetween(LastBegin(i), i) <= 2
 FirstIdx(P(_)) == CHOOSE i \in 1..Len(S) : P(i) /\ \A j \in 1..(i-1) : ~P(j)
 LockVerdict ==
   IF BadCompletion THEN <<"release_completed_not_from_releasing", FirstIdx(LAMBDA i : S[i].row = "released" /\ S[i].pre \notin {"releasing", "released"})>>
   ELSE IF ClaimWhileActive THEN <<"resume_claimed_while_active", FirstIdx(LAMBDA i : IsClaim(i) /\ S[i].pre \in {"active", "none"})>>
   ELSE IF TwoOwners THEN <<"two_resumers_one_release", 0>>
+  ELSE IF EarlyTakeover THEN <<"live_release_taken_over_before_crash_timeout", 0>>
   ELSE <<"ok", Len(S)>>
 
 (* ---- decorator runs *)
